@@ -2,7 +2,7 @@
 From Coq Require Import List NArith Bool Arith Lia.
 Import ListNotations.
 From SV Require Import Utf8 Escape EscapeProofs ExpGrammar ExpGrammarProofs Rules LineParser Generate GenerateProofs
-                       Diff Det DiffProofs DetProofs DetExtra Regen Template CramSpec GenBlock GenBlockProofs GenDocs GenDocsProofs Markdown MdSpec Update.
+                       Diff Det DiffProofs DetProofs DetExtra Regen Template CramSpec GenBlock GenBlockProofs GenDocs GenDocsProofs GuardProofs Markdown MdSpec Update.
 Local Open Scope N_scope.
 
 (* [expectation_line m line] is the text create/update write for one line of output; out_line content line: the line is
@@ -149,6 +149,10 @@ Theorem C09_guarded_line_reads_back : forall rp rc gn first cram m c rest line, 
   exists r, parse rp rc gn (guarded_line first cram m line) = POk (mkE r false false) /\ rule_matches r line = true.
 Proof. exact guarded_line_reads_back. Qed.
 Print Assumptions C09_guarded_line_reads_back.
+(* the second guard leaves nothing for the escaped rule to drop: what it returns never ends in ` (no-eol)` *)
+Theorem C09_no_eol_guard_keeps_ending : forall t, strip_suffix S_NOEOL (guard_noeol t) = None.
+Proof. exact guard_noeol_keeps_ending. Qed.
+Print Assumptions C09_no_eol_guard_keeps_ending.
 Example C09_guard_instances :
   guarded_line true false Unicode [62; 32; 102; 10] = [92; 120; 51; 101; 32; 102] ++ S_ESCAPED                 (* > f   ->  \x3e f (escaped) *)
   /\ guarded_line false true Ascii [36; 32; 121; 10] = [92; 120; 50; 52; 32; 121] ++ S_ESCAPED                 (* $ y   ->  \x24 y (escaped) *)
